@@ -86,6 +86,9 @@ pub struct Scenario {
     /// connection id lifetime in seconds for both endpoints (0 = provider default: no expiry)
     #[serde(default)]
     pub cid_lifetime_s: u64,
+    /// the server validates the client's address with a Retry packet before it creates any connection state
+    #[serde(default)]
+    pub retry: bool,
 }
 
 #[derive(Clone, Debug, Serialize, Deserialize)]
